@@ -17,7 +17,7 @@
     grid.cells  nx ny nz COORD ZCORN          -> per cell: vol cx cy cz depth dx dy dz thick (9 doubles)
     grid.corners nx ny nz COORD ZCORN g       -> X(8) Y(8) Z(8)
     grid.vol    X Y Z                         -> volume
-    grid.split  X Y Z                         -> vol(lower) vol(upper)
+    grid.split  X Y Z                         -> vol of the two halves under k-, i-, j-subdivision (6 doubles)
     grid.egrid  nx ny nz unit ffrom COORD ZCORN actnum mapaxes mapunits nnc  -> file bytes (hex)
     grid.load   feet cm filehex               -> nx ny nz|COORD|ZCORN|actnum|nactive|mapaxes|mapunits|nfix
 -/
@@ -276,7 +276,8 @@ def handle (op : String) (args : List String) : String :=
     match parseF64s x, parseF64s y, parseF64s z with
     | some x, some y, some z =>
       let c : Corners Float := ⟨fn x, fn y, fn z⟩
-      f64Hex (cellVolume Float.abs (splitLower c)) ++ " " ++ f64Hex (cellVolume Float.abs (splitUpper c))
+      " ".intercalate ([splitLower c, splitUpper c, splitLowerI c, splitUpperI c, splitLowerJ c, splitUpperJ c].map
+        fun h => f64Hex (cellVolume Float.abs h))
     | _, _, _ => "bad-op"
   | "grid.egrid", [nx, ny, nz, unit, ffrom, co, zc, act, mapaxes, mapunits, nnc] =>
     let d : Dims := ⟨nx.toNat!, ny.toNat!, nz.toNat!⟩
